@@ -49,8 +49,9 @@ func bldRadius(rt *rapid.T, codes []int) *bld {
 		p.raw(v...)
 		p.set(j, 2+len(v))
 	}
+	d := dictFor("radius")
 	for n := rapid.IntRange(0, 7).Draw(rt, "nattr"); n > 0; n-- {
-		switch t := rapid.SampledFrom([]int{1, 4, 8, 11, 18, 25, 26, 27, 28, 31, 44, 44, 80, 101, 200}).Draw(rt, "attr"); t {
+		switch t := dictType(rt, d, "attr", 1, 4, 8, 11, 18, 25, 26, 26, 26, 27, 28, 31, 44, 44, 80, 101, 200); t {
 		case 4, 8:
 			attr(t, rapid.SampledFrom([][]byte{{10, 9, 0, 2}, {10, 9, 0, 3}, {0, 0, 0, 0}, {1, 2, 3}}).Draw(rt, "ip"))
 		case 27, 28:
@@ -60,10 +61,50 @@ func bldRadius(rt *rapid.T, codes []int) *bld {
 		case 31:
 			attr(t, []byte(rapid.SampledFrom([]string{"02:00:00:00:00:aa", "zz", ""}).Draw(rt, "mac")))
 		case 26:
-			attr(t, append([]byte{0, 0, 0x0d, 0xe9, 1, 6}, rbytes(rt, 0, 8, "vsa")...))
+			addVSA(rt, p, d)
 		default:
 			attr(t, rbytes(rt, 0, 40, "attrVal"))
 		}
+	}
+	p.set(i, len(p.b))
+	return p
+}
+
+// addVSA appends a Vendor-Specific attribute (RFC 2865 5.26): Vendor-Id from the dictionary of the code under test /
+// boundary / random, then vendor sub-attributes (type, length incl. header, value) with recorded - and sometimes
+// already hostile - inner lengths.
+func addVSA(rt *rapid.T, p *bld, d *dict) {
+	p.u8(26)
+	j := p.len8()
+	start := len(p.b)
+	if uni(rt, 12, "vsaShort") > 0 {
+		p.raw(be32(dictInt(rt, d, 32, "vendor"))...)
+		subTLVs(rt, p, d, 1, 1, true, "vsaSub")
+	} else {
+		p.raw(rbytes(rt, 0, 3, "vsaStub")...) // too short for a Vendor-Id
+	}
+	p.set(j, 2+len(p.b)-start)
+}
+
+// bldCoAVSA is an otherwise plain CoA / Disconnect request for an existing session that carries 1-2 Vendor-Specific
+// attributes (the radius-coa generator signs these cases, so they reach attribute processing).
+func bldCoAVSA(rt *rapid.T) *bld {
+	p := &bld{}
+	p.u8(pick(rt, "code", 43, 43, 43, 40)).u8(rapid.IntRange(0, 255).Draw(rt, "id"))
+	i := p.len16()
+	p.raw(make([]byte, 16)...)
+	d := dictFor("radius")
+	sid := func() {
+		p.raw(44, 8).str("sess-1")
+	}
+	if uni(rt, 2, "sidFirst") == 0 {
+		sid()
+	}
+	for n := 1 + uni(rt, 2, "nvsa"); n > 0; n-- {
+		addVSA(rt, p, d)
+	}
+	if p.b[len(p.b)-1] != 0 || uni(rt, 2, "sidLast") == 0 {
+		sid()
 	}
 	p.set(i, len(p.b))
 	return p
@@ -137,7 +178,9 @@ func getRig() *coaRig {
 }
 
 // serve delivers the datagrams followed by the stop datagram and runs the real receive loop over them.
-func (r *coaRig) serve(datagrams ...[]byte) error {
+func (r *coaRig) serve(datagrams ...[]byte) error { return r.serveWithin(8*time.Second, datagrams...) }
+
+func (r *coaRig) serveWithin(maxWait time.Duration, datagrams ...[]byte) error {
 	for _, d := range datagrams {
 		if _, err := r.client.Write(d); err != nil {
 			return fmt.Errorf("harness: loopback write: %w", err)
@@ -146,7 +189,7 @@ func (r *coaRig) serve(datagrams ...[]byte) error {
 	if _, err := r.client.Write(r.stop); err != nil {
 		return fmt.Errorf("harness: loopback write: %w", err)
 	}
-	err := r.srv.VerifC09Serve(r.proc.HandleDisconnect, 8*time.Second)
+	err := r.srv.VerifC09Serve(r.proc.HandleDisconnect, maxWait)
 	r.drainClient()
 	return err
 }
@@ -195,7 +238,29 @@ func init() {
 		return p
 	}
 	register(&target{
-		name: "radius-coa", nsel: 1, avoid: fixCoALen, avoidSigs: []string{sigCoA},
+		name: "radius-coa", nsel: 1, avoid: fixCoALen, avoidSigs: []string{sigCoA}, hangAs: "coa-listener",
+		dictSeeds: func() [][]byte {
+			// every integer literal of the package under test (and the boundary values) as Vendor-Id of an
+			// authentic CoA / Disconnect request for an existing session, x hostile vendor sub-attribute lists
+			var o [][]byte
+			seen := map[uint64]bool{}
+			for _, v := range append(dictFor("radius").ints(32), boundaries...) {
+				if seen[v] {
+					continue
+				}
+				seen[v] = true
+				for _, sh := range innerShapes(1, 1, true) {
+					vsa := append(append([]byte{26, byte(6 + len(sh))}, be32(v)...), sh...)
+					for _, code := range []byte{43, 40} {
+						p := mk(code, "2c 08 736573732d31")
+						p = append(p, vsa...)
+						binary.BigEndian.PutUint16(p[2:4], uint16(len(p)))
+						o = append(o, withSel(p, 1))
+					}
+				}
+			}
+			return o
+		},
 		run: func(data []byte, c *caseInfo) {
 			sel, dg := split(data, 1)
 			dg = append([]byte(nil), dg...)
@@ -214,6 +279,22 @@ func init() {
 			}
 			r := getRig()
 			if err := r.serve(dg); err != nil {
+				// The listener returned to its loop but never answered the valid sentinel request that followed the
+				// datagram.  Loopback loss is possible in principle, so: the sentinel alone must be answered, the
+				// datagram + sentinel must fail twice more, and the sentinel alone must be answered again - then the
+				// datagram is what silences the listener.
+				r.srv.VerifC09Drain()
+				r.drainClient()
+				silenced := r.serveWithin(3*time.Second) == nil
+				for k := 0; k < 2 && silenced; k++ {
+					silenced = r.serveWithin(3*time.Second, dg) != nil
+					r.srv.VerifC09Drain()
+					r.drainClient()
+				}
+				if silenced && r.serveWithin(3*time.Second) == nil {
+					panic(&verdictPanic{sig: hangSig(targets["radius-coa"], "no-answer-to-following-request"),
+						msg: "after this datagram the CoA listener does not answer a following valid Disconnect-Request (3 of 3 attempts; the same request alone is answered)"})
+				}
 				coaLost++
 				c.class("harness:stop-datagram-lost")
 				r.srv.VerifC09Drain()
@@ -221,7 +302,16 @@ func init() {
 		},
 		cleanup: func() { getRig().srv.VerifC09Drain(); getRig().drainClient() },
 		gen: func(rt *rapid.T) []byte {
-			p := genPacket(rt, func(rt *rapid.T) *bld { return bldRadius(rt, []int{43, 43, 43, 40, 40, 1, 44, 0}) }, consts)
+			build := func(rt *rapid.T) *bld { return bldRadius(rt, []int{43, 43, 43, 40, 40, 1, 44, 0}) }
+			vsa := uni(rt, 4, "vsaFocus") == 0
+			if vsa {
+				build = bldCoAVSA
+			}
+			p := genPacket(rt, build, consts)
+			if vsa {
+				lastGenClass += "+vsa"
+				return withSel(p, 1) // signed: the vendor walk is behind the authenticator check
+			}
 			if vstat.IsListed(sigCoA) {
 				if rapid.IntRange(0, 9).Draw(rt, "keepKFShape") > 0 {
 					p = fixCoALen(p)
@@ -248,6 +338,22 @@ func init() {
 	clConsts := [][]byte{accept, mk(3, "12 04 6e6f"), mk(2, ""), mk(2, "1b 03 00"), mk(2, "08 05 0a0900"), mk(2, "1b 02"), mk(2, "1b 06 ffffffff"), withLen(accept, 20), withLen(accept, 19), withLen(accept, 0xffff), mk(2, "1a 06 00000de9"), mk(2, "1a 07 00000de9 01")}
 	register(&target{
 		name: "radius-client-parse",
+		dictSeeds: func() [][]byte {
+			var o [][]byte
+			seen := map[uint64]bool{}
+			for _, v := range append(dictFor("radius").ints(32), boundaries...) {
+				if seen[v] {
+					continue
+				}
+				seen[v] = true
+				for _, sh := range innerShapes(1, 1, true) {
+					p := append(append([]byte(nil), accept...), append(append([]byte{26, byte(6 + len(sh))}, be32(v)...), sh...)...)
+					binary.BigEndian.PutUint16(p[2:4], uint16(len(p)))
+					o = append(o, p)
+				}
+			}
+			return o
+		},
 		run: func(data []byte, c *caseInfo) {
 			clOnce.Do(func() {
 				var err error
